@@ -344,6 +344,8 @@ pub fn run(args: &[String]) -> Value {
     let mut n_events = 0u64;
     let mut distinct: HashSet<String> = HashSet::new();
     let mut seen_events: HashSet<String> = HashSet::new();
+    // twins of one group must agree with each other even where the specification predicts nothing
+    let mut groups: HashMap<String, (String, String, String)> = HashMap::new();
     for case in &cases {
         let suite = case["suite"].as_str().unwrap_or("?").to_string();
         *by_suite.entry(suite.clone()).or_insert(0) += 1;
@@ -389,6 +391,20 @@ pub fn run(args: &[String]) -> Value {
             b["what"] = json!(what);
             mm.push(kind, b);
         };
+        if let Some(g) = case["group"].as_str().filter(|g| !g.is_empty()) {
+            let mine = format!("{}:{}", r.status, r.value.as_ref().map(|v| v.to_string()).unwrap_or_else(|| r.detail.clone()));
+            match groups.get(g) {
+                None => { groups.insert(g.to_string(), (mine, text.clone(), case["id"].to_string())); }
+                Some((first, first_text, first_id)) => {
+                    if *first != mine && r.status != "rejected" && !first.starts_with("rejected") {
+                        let mut b = base.clone();
+                        b["what"] = json!(format!("twins of one program disagree: {first_id} gave {first}, this one {mine}"));
+                        b["twin_program"] = json!(first_text);
+                        mm.push("twins", b);
+                    }
+                }
+            }
+        }
         // negative (deliberately ill-typed) case: a rejection is the expected answer; if the checker accepts it the
         // run is judged by its events (recorded above) and must not panic, but no result is predicted
         let negative = case["negative"].as_bool().unwrap_or(false);
